@@ -115,6 +115,10 @@ func NewAccountingRequestFromBytes(data []byte) (*AcctRequest, error) {
 
 // Validate all fields on this type
 func (a *AcctRequest) Validate() error {
+	// each of these has a one byte length or count field on the wire
+	if len(a.User) > 0xff || len(a.Port) > 0xff || len(a.RemAddr) > 0xff || len(a.Args) > 0xff {
+		return fmt.Errorf("user, port and rem_addr must not exceed 255 bytes each, nor args 255 entries")
+	}
 	// validate
 	for _, t := range []Field{a.Method, a.PrivLvl, a.Type, a.Service, a.User, a.Port, a.RemAddr, a.Flags} {
 		if err := t.Validate(nil); err != nil {
@@ -285,6 +289,10 @@ func NewAccountingReplyFromBytes(data []byte) (*AcctReply, error) {
 
 // Validate all fields on this type
 func (a *AcctReply) Validate() error {
+	// each of these has a two byte length field on the wire
+	if len(a.ServerMsg) > 0xffff || len(a.Data) > 0xffff {
+		return fmt.Errorf("server_msg and data must not exceed 65535 bytes each")
+	}
 	// validate
 	for _, t := range []Field{a.Status, a.ServerMsg, a.Data} {
 		if err := t.Validate(nil); err != nil {
